@@ -477,6 +477,10 @@ EditIsLocal ==
          => \A x \in DOMAIN ents :
                (x # last'.i /\ x # ents[last'.i].ptr)
                   => (ents'[x].live = ents[x].live /\ ents'[x].file = ents[x].file /\ ents'[x].ptr = ents[x].ptr)]_vars
+\* every value the class documents as acceptable can be set through the public setter
+ValidEditsAccepted ==
+    [][(last'.act = "Edit" /\ last'.val # "bogus" /\ ~(MovingLoop /\ last'.op = "loop_radius" /\ last'.val = "none"))
+         => last'.out = "ok"]_vars
 RefusedIsNoop == [][(last'.out # "ok") => ents' = ents]_vars      \* rejected edits and copies that select nothing
 
 \* ------------------------------------------------------------------ export
